@@ -4,6 +4,7 @@ use vstd::prelude::*;
 use std::sync::Arc;
 verus! {
 //@include prelude/core.rs
+//@include prelude/std_misc.rs
 
 //@item stun_rs :: mod common > fn check_buffer_boundaries
 //@spec
